@@ -31,6 +31,7 @@ struct Ev { kind: String, idx: usize, c: String, terminal: String, direction: St
 #[derive(Serialize, Deserialize, Clone, Default, Debug)]
 struct Pat { n: usize, rows: Vec<Vec<i64>>, form: String, groups: Vec<i64>, ngroups: i64 }
 #[derive(Serialize, Deserialize, Clone, Default, Debug)]
+#[serde(default)]
 struct Case {
     id: String,
     kind: String,        // "full" (complete relational comparison) | "grp" (observe the FD perturbation groups)
@@ -61,7 +62,10 @@ struct Case {
     max_step: Step,
     max_steps: i64,      // 0 = absent
     jac: String,         // none | const | callable
-    jac_form: String,    // ndarray | intarray | callable | callable_list
+    jac_form: String,    // none | callable | delivery form of a constant matrix (ndarray fortran tview strided intarray intfortran int32)
+    jac_ret: String,     // delivery form of the matrix a callable jac returns
+    ev_ret: String,      // float | npfloat | zerod : type of the value the event functions return
+    tspan_form: String,  // tuple | list | ndarray
     has_sparsity: bool,
     pat: Pat,
     ret: String,         // list | tuple | ndarray
@@ -245,6 +249,7 @@ struct Scen {
     #[serde(default)] groups: Vec<i64>,
     #[serde(default)] ngroups: i64,
     #[serde(default)] doc: bool,
+    #[serde(default)] njev: String,
 }
 
 struct Tables { methods: Vec<Scen>, tols: Vec<Scen>, steps: Vec<Scen>, evattrs: Vec<Scen>, jacs: Vec<Scen>,
@@ -264,6 +269,9 @@ fn base_case(problem: &str, n: usize) -> Case {
     c.jac = "none".into();
     c.jac_form = "none".into();
     c.ret = "list".into();
+    c.jac_ret = "ndarray".into();
+    c.ev_ret = "float".into();
+    c.tspan_form = "tuple".into();
     c.rtol = Tol { form: "absent".into(), expect: "Default".into(), v: vec![] };
     c.atol = Tol { form: "absent".into(), expect: "Default".into(), v: vec![] };
     c.first_step = Step { form: "absent".into(), expect: "None".into(), v: d(0.0) };
@@ -277,7 +285,7 @@ fn base_case(problem: &str, n: usize) -> Case {
         k => panic!("problem {k}"),
     };
     c.n = y0.len();
-    if problem == "lin" && n == 3 { c.a = vec![vec![-2, 1, 0], vec![1, -3, 1], vec![0, 1, -2]]; }
+    if problem == "lin" && n == 3 { c.a = vec![vec![-2, 1, 0], vec![2, -3, 1], vec![0, 3, -2]]; } // non-symmetric
     c.t0 = d(t0); c.tf = d(tf); c.y0 = toks(&y0); c.params = toks(&params);
     c
 }
@@ -308,9 +316,9 @@ fn attr<'a>(tb: &'a Tables, terminal: &str, direction: &str) -> &'a Scen {
 
 const PROBLEMS: [(&str, usize); 5] = [("decay", 3), ("sho", 2), ("affine", 1), ("vdp", 2), ("lin", 3)];
 const CANON: [&str; 6] = ["RK45", "RK23", "DOP853", "Radau", "BDF", "RK4"];
-const FACETS: [&str; 23] = ["tol-scalar", "tol-vector", "tol-form", "t_eval", "dense", "ev-terminal", "ev-direction", "ev-multi",
+const FACETS: [&str; 25] = ["tol-scalar", "tol-vector", "tol-form", "t_eval", "dense", "ev-terminal", "ev-direction", "ev-multi",
     "first_step", "max_step", "max_steps", "backward", "jac-const", "jac-callable", "args", "args-events", "args-jac",
-    "alias", "ret-form", "y0-form", "dense-events-teval", "step-form", "invalid"];
+    "alias", "ret-form", "y0-form", "dense-events-teval", "step-form", "invalid", "ev-ret", "tspan-form"];
 
 fn apply_facet(c: &mut Case, facet: &str, tb: &Tables, rng: &mut Rng) {
     let (t0, tf) = (untok(&c.t0), untok(&c.tf));
@@ -389,11 +397,12 @@ fn apply_facet(c: &mut Case, facet: &str, tb: &Tables, rng: &mut Rng) {
         "backward" => { let (a, b) = (c.t0.clone(), c.tf.clone()); c.t0 = b; c.tf = a; }
         "jac-const" => {
             if c.problem == "vdp" { c.jac = "callable".into(); c.jac_form = "callable".into(); }
-            else { c.jac = "const".into(); c.jac_form = (*rng.pick(&["ndarray", "ndarray", "intarray"])).into();
-                   if c.jac_form == "intarray" && c.problem != "lin" { c.jac_form = "ndarray".into(); }
+            else { c.jac = "const".into(); c.jac_form = (*rng.pick(&["ndarray", "fortran", "tview", "strided", "intarray"])).into();
+                   if c.jac_form == "intarray" && c.problem != "lin" { c.jac_form = "fortran".into(); }
                    if c.jac_form == "intarray" { c.params = toks(&[1.0]); } }
         }
-        "jac-callable" => { c.jac = "callable".into(); c.jac_form = "callable".into(); }
+        "jac-callable" => { c.jac = "callable".into(); c.jac_form = "callable".into();
+                            c.jac_ret = (*rng.pick(&["ndarray", "fortran", "tview", "strided"])).into(); }
         "args" => { c.use_args = true; }
         "args-events" => {
             c.use_args = true;
@@ -412,7 +421,15 @@ fn apply_facet(c: &mut Case, facet: &str, tb: &Tables, rng: &mut Rng) {
                 c.atol = Tol { form: "list".into(), expect: "Vector".into(), v: toks(&vec![1e-6; 1]) }; // index panic for n >= 2
             }
         }
-        "ret-form" => { c.ret = (*rng.pick(&["tuple", "ndarray"])).into(); }
+        "ret-form" => { c.ret = (*rng.pick(&["tuple", "ndarray", "npfloat_list"])).into(); }
+        "ev-ret" => {
+            let e1 = mk_event(c, "comp", 0, attr(tb, "absent", "absent"));
+            let e2 = mk_event(c, "time", 1, attr(tb, "absent", "p1"));
+            c.events = vec![e1, e2];
+            c.events_form = "list".into();
+            c.ev_ret = (*rng.pick(&["npfloat", "zerod"])).into();
+        }
+        "tspan-form" => { c.tspan_form = (*rng.pick(&["list", "ndarray"])).into(); }
         "y0-form" => { c.y0_form = (*rng.pick(&["ndarray", "intlist", "intarray"])).into(); }
         "dense-events-teval" => {
             apply_facet(c, "dense", tb, rng);
@@ -485,6 +502,28 @@ fn gen_cases(tb: &Tables, seed: u64, tier: &str) -> Vec<Case> {
         set_method(&mut c, s);
         c.class = "alias".into();
         out.push(c);
+    }
+    // 3c. Jacobian delivery forms (memory layouts / dtypes of PyLayer's jac table) x {constant, callable} x {Radau, BDF};
+    //     non-symmetric Jacobians (sho, lin 3x3, vdp) so that a transposed read changes the numbers
+    {
+        let forms: Vec<&Scen> = tb.jacs.iter().filter(|s| s.njev == "zero").collect();
+        let mut k = 0usize;
+        for f in forms.iter() {
+            for callable in [false, true] {
+                for m in ["Radau", "BDF"] {
+                    k += 1;
+                    let int_form = f.form.starts_with("int");
+                    let (p, n) = if int_form { ("lin", 3) } else if callable { [("vdp", 2), ("lin", 3), ("sho", 2)][k % 3] } else { [("sho", 2), ("lin", 3)][k % 2] };
+                    let mut c = base_case(p, n);
+                    set_method(&mut c, canonical(tb, m));
+                    if int_form { c.params = toks(&[1.0]); }
+                    if callable { c.jac = "callable".into(); c.jac_form = "callable".into(); c.jac_ret = f.form.clone(); }
+                    else { c.jac = "const".into(); c.jac_form = f.form.clone(); }
+                    c.class = "jac-layout".into();
+                    out.push(c);
+                }
+            }
+        }
     }
     // 3b. event attributes outside the documented domain (int-valued terminal, fractional direction): Level-B expectation only
     for (k, s) in tb.evundoc.iter().enumerate() {
